@@ -142,12 +142,33 @@ def gc_phase_order(rec, F):
                             p = op_place(sdl[1]["a"])
                             if p and sem.place_has_field(p, ALLOC, "bytes_allocated"):
                                 ok_next = True
+    # the read that feeds next_gc must see the post-collection value: it comes after the assignment
+    assign_pos = None
+    read_pos = None
+    for bi, b in enumerate(fn.blocks):
+        if bi not in fn.reachable:
+            continue
+        for si, s in enumerate(b["s"]):
+            if s["d"]["p"] and sem.place_has_field(s["d"], ALLOC, "bytes_allocated"):
+                assign_pos = (bi, si)
+            if not s["d"]["p"] and s["r"]["k"] == "use":
+                p_ = op_place(s["r"]["a"])
+                if p_ and sem.place_has_field(p_, ALLOC, "bytes_allocated"):
+                    # is this read the one feeding next_gc?
+                    tl = sem.forward_taint(fn, {s["d"]["l"]}, through_calls=False)
+                    for b2, si2, s2 in fn.stmts():
+                        if s2["d"]["p"] and sem.place_has_field(s2["d"], ALLOC, "next_gc") and any(q["l"] in tl for q in sem.places_in_rvalue(s2["r"])):
+                            read_pos = (bi, si)
+    if ok_next and assign_pos and read_pos:
+        after = (read_pos[0] == assign_pos[0] and read_pos[1] > assign_pos[1]) or (read_pos[0] != assign_pos[0] and fn.dominates(assign_pos[0], read_pos[0]))
+        if not after:
+            ok_next = False
     rec.inst(RA, "bytes_allocated=sum(sweeps)", ok=ok_sum, loc=fn.loc)
     if not ok_sum:
         rec.finding(RA, "F4.gc-acct/bytes_allocated", "after collection bytes_allocated is not assigned the sum of both sweepers' results", loc=fn.loc, fn=fn.path)
     rec.inst(RA, "next_gc<-bytes_allocated", ok=ok_next, loc=fn.loc)
     if not ok_next:
-        rec.finding(RA, "F4.gc-acct/next_gc", "next_gc is not derived from the post-collection bytes_allocated", loc=fn.loc, fn=fn.path)
+        rec.finding(RA, "F4.gc-acct/next_gc", "next_gc is not derived from the post-collection bytes_allocated (it must read bytes_allocated after it was assigned the sweep total; otherwise the threshold tracks the pre-collection size and drifts upwards)", loc=fn.loc, fn=fn.path)
 
 
 # ---------------------------------------------------------------------------
@@ -461,3 +482,28 @@ def _uses_field(fn, bi, field):
                 a0 = sd[1]["args"][0] if sd[1]["args"] else None
                 l = op_local(a0) if a0 else None
     return False
+
+
+def relocation_layout(rec, F):
+    R = rec.rule("F6.moved", "the capacity recorded in a relocated list's old block (mark_moved) is the capacity that block was allocated with, not the new allocation's: ObjectHandle::size and Drop read the stub's layout from that slot")
+    n = 0
+    for fn in F.all_fns():
+        if fn.crate != "laythe_core" or "::test" in fn.path:
+            continue
+        mm = [(bi, t) for bi, t in fn.calls() if lastseg(t["f"]) == "mark_moved"]
+        if not mm:
+            continue
+        for bi, t in mm:
+            n += 1
+            moved = sem.desc_operand(fn, t["args"][-1])
+            newcaps = []
+            for b2, t2 in fn.calls():
+                if lastseg(t2["f"]) in ("new", "cap_only", "with_capacity") and "VecBuilder" in t2["f"]:
+                    newcaps.append(sem.desc_operand(fn, t2["args"][-1]))
+            same = any(moved == nc for nc in newcaps)
+            from_old = moved[0] == "arg" or "'cap'" in str(moved) or "read_cap" in str(moved)
+            ok = from_old and not same
+            rec.inst(R, "%s: mark_moved(old capacity)" % fn.name, ok=ok, loc=loc_of(t["sp"]), note="moved=%s new=%s" % (str(moved)[:60], [str(x)[:60] for x in newcaps]))
+            if not ok:
+                rec.finding(R, "F6.moved/%s" % fn.name, "%s records in the abandoned block the capacity of the NEW allocation (or a value not derived from the old capacity): the stub is later sized and deallocated with a layout it was not allocated with" % fn.name, loc=loc_of(t["sp"]), fn=fn.path)
+    rec.floor(R, "mark_moved call sites", n, 1)
